@@ -337,7 +337,8 @@ class Gen:
             return key + SUFFIX, {"sub": self.mapping(True, depth - 1)}
         name = r.choice(list(FN_ARITY))
         q = r.random()
-        keys = SUB_KEYS if nested else TOP_KEYS
+        # a top-level FunctionCall may read `version` (the caller's bookkeeping, rewritten after every step)
+        keys = SUB_KEYS if nested else (TOP_KEYS + ["version"] if r.random() < 0.15 else TOP_KEYS)
         if q < 0.35 and FN_ARITY[name] == 1:
             args = None
         elif q < (0.4 if FN_ARITY[name] == 1 else 0.04):
